@@ -187,6 +187,10 @@ def grid(ctx):
             must.append((c, (2, b"k", b"v", x, 0, False, None)))
         for d in DELTAS:
             must += [(c, (11, b"k", d, False)), (c, (12, b"k", d, True)), (c, (14, d, None))]
+    # key collections given as one-shot iterators, the empty one included (nothing to fetch or delete: nothing is written)
+    for c in cfgs[:4]:
+        must += [(c, (7, True, [])), (c, (8, True, [])), (c, (7, True, [b"k", b"j"])), (c, (8, True, [b"k"])), (c, (10, True, [], None)), (c, (10, True, [b"k"], None)),
+                 (c, (7, False, [])), (c, (10, False, [], None)), (c, (1, [], 0, None, None))]
     # commands that take no key: whatever the key prefix, their words go out as given
     for c in cfgs:
         if c["enc"] == 0 and c["serde"] == 0 and c["unicode"] is False:
